@@ -444,6 +444,12 @@ def fixed_eq_lines():
         out.append("eq %s T:2,2/1:1,2,3,4 0 -7" % nm)
     for nm in ("primitivResetTensor", "primitivMultiplyTensorByConstantInplace"):
         out.append("eq %s T:2/1:1,2 F:2 -7" % nm)
+    # caller arrays shorter than the (batched) shape needs: by one element, by one sample, all but one sample
+    for V in ("Tensor", "Node"):
+        for short in (1, 6, 18, 23):
+            out.append("eq primitivApply%sInput S:2,3/4 T:2,3/4:1 %d %d" % (V, short, short % 2))
+        out.append("eq primitivApply%sInput S:2/2 T:2/2:1 1 1" % V)
+        out.append("eq primitivApply%sInput S:2/2 T:2/2:1 2 0" % V)
     for V in ("Tensor", "Node"):
         P = "primitivApply" + V
         # anisotropic: padding (1,0) stride (1,2) dilation (2,1) and the mirror image
